@@ -293,6 +293,9 @@ def check_interrupted(run, case):
             run.ev('trainings_interrupted_by_sigint')
             if not o['saved']:
                 run.ev('interrupted_trainings_that_saved_nothing'); continue
+            if o['rc'] != 0:
+                # killed while it was writing the ruleset: the trainer did not claim that this training completed, the partial tree is not judged
+                run.ev('interrupted_trainings_killed_while_saving'); continue
             run.ev('interrupted_trainings_that_left_a_ruleset')
             try:
                 bad = arithmetic(o['path'])
